@@ -239,6 +239,25 @@ func cmdCheck(args []string) int {
 		os.MkdirAll(filepath.Dir(expectFile), 0o755)
 		os.WriteFile(expectFile, []byte(strings.Join(names, "\n")+"\n"), 0o644)
 	}
+	// only obligations that come from contract text (not from the shape of the code) are pinned
+	pinned := func(n string) bool {
+		for _, k := range []string{"#post", "lemma#", "#inv-entry", "#inv-step", "#lockinv"} {
+			if strings.Contains(n, k) {
+				return true
+			}
+		}
+		return false
+	}
+	var pn []string
+	for _, n := range names {
+		if pinned(n) {
+			pn = append(pn, n)
+		}
+	}
+	names = pn
+	if *updateExpect && *only == "" {
+		os.WriteFile(expectFile, []byte(strings.Join(names, "\n")+"\n"), 0o644)
+	}
 	expectNote := ""
 	if *only == "" {
 		if b, err := os.ReadFile(expectFile); err == nil {
